@@ -22,9 +22,9 @@ from .runner import (EXIT_HARNESS, EXIT_OK, EXIT_VIOLATION, WORKERS, HarnessFail
 
 TIERS = {
     "quick": {"gen": 70, "refused": 16, "cli": 10, "dec_small": 18, "dec_big": 12, "dec_bad": 8,
-              "examples": "once", "reps": 8, "hist_len": 25},
+              "examples": "once", "reps": 8, "hist_len": 25, "families": 1},
     "thorough": {"gen": 900, "refused": 120, "cli": 80, "dec_small": 150, "dec_big": 24,
-                 "dec_bad": 60, "examples": "many", "reps": 40, "hist_len": 30},
+                 "dec_bad": 60, "examples": "many", "reps": 40, "hist_len": 30, "families": 6},
 }
 WORKER = os.path.join(VERIF_DIR, "sim", "c12_worker.py")
 
@@ -130,12 +130,100 @@ def build_pool(seed, tier):
         env = _env_for(r, c.tool)
         add({"t": "decode", "tool": c.tool, "opts": c.opts, "data": b64(data), "env": env.to_json()},
             "dec-damaged-%s%d" % (fmt, i), "dec:" + c.tool, fault="decoder_on_damaged_input")
+    # decoder *families*: inputs that share most of their bytes or options (same file under
+    # every pixel mode, same payload with one header flag flipped, same payload raw and
+    # compressed, a neighbour size, a body-truncated copy).  State a decoder keeps between its
+    # own calls (a memo keyed too coarsely, a table mutated and not restored on the error
+    # path, a scratch buffer that is reused) only shows between such relatives.
+    for fam_i in range(cfg.get("families", 1)):
+        for tool, opts, data, label, fault in decoder_families(r):
+            env = Env()
+            add({"t": "decode", "tool": tool, "opts": opts, "data": b64(data), "env": env.to_json()},
+                "fam%d-%s" % (fam_i, label), "dec:" + tool, fault=fault)
     # de-duplicate by key, keep order
     seen, out = set(), []
     for op in pool:
         if op["key"] not in seen:
             seen.add(op["key"])
             out.append(op)
+    return out
+
+
+def decoder_families(r):
+    """-> list of (tool, opts, bytes, label, fault)"""
+    out = []
+    half = lambda d, frac=0.6: d[:max(1, int(len(d) * frac))]   # noqa: E731
+    # MAX: one file under every pixel mode, with and without -i, plus body-truncated copies
+    c = formats.gen_max(r, small=True, with_opts=False)
+    w, rows = 16, 8
+    body = bytes(r.getrandbits(8) for _ in range(w // 8 * rows))
+    size = w * rows // 8
+    mx = bytes([0, size >> 8, size & 255, 14, 0]) + body + bytes([255, 0, 0, 14, 0])
+    for mode in formats.MAX_MODES:
+        o = ([mode] if mode else []) + ["-w", str(w)]
+        out.append(("maxtoppm", o, mx, "max%s" % (mode or "-bw"), None))
+    for mode in ("-rb2", "-rb3", "-br2", "-br", ""):
+        o = ([mode] if mode else []) + ["-w", str(w)]
+        out.append(("maxtoppm", o, half(mx), "max%s-cut" % (mode or "-bw"), "decoder_on_damaged_input"))
+        out.append(("maxtoppm", o + ["-i"], bytes([1]) + mx[1:], "max%s-badhdr-i" % (mode or "-bw"), None))
+    art = bytes([2, 5]) + bytes(r.getrandbits(8) for _ in range(10))
+    out.append(("maxtoppm", ["-newsroom"], art, "art", None))
+    out.append(("maxtoppm", ["-newsroom", "-rb2"], art, "art-rb2", None))
+    # HRS: one file read under different geometries, other palette, truncated
+    pal = bytes(r.getrandbits(8) for _ in range(16))
+    px = bytes(r.getrandbits(8) for _ in range(64))
+    for w_, r_ in ((16, 8), (8, 16), (32, 4), (4, 2)):
+        out.append(("hrstoppm", ["-w", str(w_), "-r", str(r_)], pal + px, "hrs%dx%d" % (w_, r_), None))
+    out.append(("hrstoppm", ["-w", "16", "-r", "8"], pal[::-1] + px, "hrs-otherpal", None))
+    out.append(("hrstoppm", ["-w", "16", "-r", "8"], half(pal + px), "hrs-cut", "decoder_on_damaged_input"))
+    out.append(("hrstoppm", ["-w", "16", "-r", "8", "-s", "3"], b"xyz" + pal + px, "hrs-skip", None))
+    # PIX: squares of several sizes and sizes that are not 2*k*k (odd sides), big before small
+    for n in (8192, 8065, 2, 8, 18, 32, 5, 13, 31, 50, 61, 1985, 2048, 0, 1):
+        out.append(("pixtopgm", [], bytes(r.getrandbits(8) for _ in range(n)), "pix%d" % n, None))
+    # MGE: same palette bytes / other flag, raw vs RLE of the same pixels, other palette, cut
+    pix = formats._pixels(r, 32000, "runs")
+    palb = bytes(r.randint(0, 24) for _ in range(16))
+    title = b"TITLE\0" + bytes(24)
+
+    def mge(rgb, raw, pal_, body_):
+        return bytes([0]) + pal_ + bytes([0 if rgb else 1, 1 if raw else 0]) + title + bytes([0, 0]) + body_
+    rle, _ = formats.mge_rle(r, pix)
+    out.append(("mgetoppm", [], mge(True, True, palb, pix), "mge-rgb-raw", None))
+    out.append(("mgetoppm", [], mge(False, True, palb, pix), "mge-cmp-raw", None))
+    out.append(("mgetoppm", [], mge(True, False, palb, rle), "mge-rgb-rle", None))
+    out.append(("mgetoppm", [], mge(False, False, palb, rle), "mge-cmp-rle", None))
+    out.append(("mgetoppm", [], mge(True, True, palb[::-1], pix), "mge-otherpal", None))
+    out.append(("mgetoppm", [], half(mge(False, True, palb, pix)), "mge-cut", "decoder_on_damaged_input"))
+    # RAT: same pixels, other escape / other palette, cut
+    rpix = formats._pixels(r, 199 * 160, "runs")
+    rpal = bytes(r.randint(0, 63) for _ in range(16))
+    for esc, pal_, lab in ((7, rpal, "rat-a"), (200, rpal, "rat-otheresc"), (7, rpal[::-1], "rat-otherpal")):
+        body_, _ = formats.rat_stream(r, rpix, esc)
+        out.append(("rattoppm", [], bytes([esc, 1, 0]) + pal_ + body_, lab, None))
+    body_, _ = formats.rat_stream(r, rpix, 7)
+    out.append(("rattoppm", [], half(bytes([7, 1, 0]) + rpal + body_), "rat-cut", "decoder_on_damaged_input"))
+    # CM3 and VEF: generator variants plus a cut copy each
+    seen = set()
+    for _ in range(40):
+        c3 = formats.gen_cm3(r)
+        k = (c3.params["pages"], c3.params["patterns"], c3.params["praw"] == 1.0)
+        if k not in seen and len(seen) < 5:
+            seen.add(k)
+            out.append(("cm3toppm", [], c3.data, "cm3-p%d-m%d-raw%d" % (k[0], k[1], k[2]), None))
+            if len(seen) == 2:
+                out.append(("cm3toppm", [], half(c3.data), "cm3-cut", "decoder_on_damaged_input"))
+    seen = set()
+    for _ in range(60):
+        v = formats.gen_vef(r)
+        k = (v.params["type"], v.params["squashed"])
+        if k not in seen:
+            seen.add(k)
+            out.append(("veftopng", [], v.data, "vef-t%d-sq%d" % (k[0], k[1]), None))
+            if len(seen) in (2, 4):
+                out.append(("veftopng", [], half(v.data), "vef-cut%d" % len(seen), "decoder_on_damaged_input"))
+                hi = bytearray(v.data)
+                hi[2] |= 0xC0
+                out.append(("veftopng", [], bytes(hi), "vef-hipal%d" % len(seen), None))
     return out
 
 
@@ -179,9 +267,14 @@ def build_histories(seed, pool, tier):
             continue
         order = list(idx)
         r.shuffle(order)
-        for o in (order, order[::-1]):
+        orders = [order, order[::-1]]
+        for _ in range(cfg.get("extra_bursts", 1)):
+            o2 = list(idx)
+            r.shuffle(o2)
+            orders.append(o2)
+        for o in orders:
             hist.append({"proc": len(hist), "hashseed": hs.randrange(1, 2 ** 32 - 1),
-                         "ops": o[:40]})
+                         "ops": o[:150]})
     return hist
 
 
@@ -393,7 +486,7 @@ def main(tier):
     for k in obs:
         r0 = obs[k][0][2].split(":")[0]
         if r0 == "REFUSED":
-            r0 = obs[k][0][2]
+            r0 = ":".join(obs[k][0][2].split(":")[:2])
         resp_kinds[r0] = resp_kinds.get(r0, 0) + 1
     multi = sum(1 for k in obs if len(set((p, ) for p, _, _ in obs[k])) >= 2)
     probes = sorted(set(p["probe"] for _, p in results))
@@ -437,7 +530,8 @@ def main(tier):
     write_evidence("C12", tier, seed, "exploration", coverage, wall, len(reported), [
         "agreement oracle only: a deterministic but wrong output is invisible here (that is the "
         "business of C01-C11)",
-        "refusal messages are logged, not compared; the refusal class is compared",
+        "a refusal is compared by its exception class and its message text (what the user "
+        "reads on stderr), with memory addresses blanked",
         "asynchronous aborts and concurrent callers are not injected: the property speaks of "
         "programs converted before, not of interrupted or overlapping calls",
     ])
